@@ -135,7 +135,7 @@ Definition parse_cu_at (le : bool) (sec : list Z) (off : Z) : res uctx :=
   match uint_decode le 4 bs with
   | None => Err EParse
   | Some (first, _) =>
-      let dwarf_format64 := first =? gen_initlen_escape in
+      let dwarf_format64 := first =? 0xFFFFFFFF in
       (* struct_parse(cu_structs.Dwarf_CU_header, stream, offset) *)
       match initial_length_decode le bs with
       | None => Err EParse
@@ -180,7 +180,7 @@ Definition parse_tu_at (le : bool) (sec : list Z) (off : Z) : res uctx :=
   match uint_decode le 4 bs with
   | None => Err EParse
   | Some (first, _) =>
-      let dwarf_format64 := first =? gen_initlen_escape in
+      let dwarf_format64 := first =? 0xFFFFFFFF in
       match initial_length_decode le bs with
       | None => Err EParse
       | Some ((len, is64), r1) =>
